@@ -12,4 +12,15 @@ McMenuW == {<<>>, <<"t">>, <<"b">>}
 McTimesW == {30, 60, 1830, 1860}
 McMenuV == {<<>>, <<"t">>}
 McTimesV == {30, 1830}
+\* carrier encodings: the same signed content in boxes whose JSON payloads are written differently, in another box around it,
+\* twice in one box, in two boxes of one block, in a box and on its own; two blocks of one branch / two forks
+McTimesC == {30}
+McMenuC == {<<"t">>, <<"u">>, <<"b">>, <<"w">>, <<"bb">>, <<"bu">>, <<"b", "w">>, <<"b", "t">>}
+McMenuCT == McMenuC \cup {<<"t2">>, <<"t", "w">>, <<"bu", "w">>, <<"u", "b">>}
+\* a reimbursement transaction priced twice by its gas payer
+McMenuR == {<<"r">>, <<"r2">>, <<"r", "r2">>, <<"t">>, <<"t", "r">>}
+\* a signature appended to t by somebody else
+McMenuA == {<<"t">>, <<"t3">>, <<"t", "t3">>, <<"b">>, <<"u", "t3">>}
+McMenuRA == McMenuR \cup McMenuA
+McMenuX == McMenu \cup {<<"w">>, <<"b", "w">>, <<"t", "w">>}
 ====
